@@ -42,6 +42,12 @@ class RuleCtx:
             raise AnchorMissing(f"function `{key}` not found in cfg {self.cfg}")
         return b
 
+    def method(self, adt, name, trait=None):
+        b = self.F.method(adt, name, trait)
+        if b is None:
+            raise AnchorMissing(f"method `{name}` of `{adt}` not found (or ambiguous) in cfg {self.cfg}")
+        return b
+
     def need(self, cond, what):
         if not cond:
             raise AnchorMissing(what)
@@ -123,6 +129,12 @@ def finish(run, extra_cov=None, explanation='', assumptions=None, not_decided=No
     known = load_known()
     known_keys = {k['key']: k for k in known.get('known', []) if k['property'] == prop}
     os.makedirs(os.path.join(EVID, 'replay'), exist_ok=True)
+    import glob
+    for old_rp in glob.glob(os.path.join(EVID, 'replay', f"{prop}-*.json")):
+        try:
+            os.remove(old_rp)
+        except OSError:
+            pass
     viol = []
     kf = []
     for ctx in run.results:
